@@ -44,6 +44,7 @@
 #include <sys/wait.h>
 #include <sys/select.h>
 #include <sys/time.h>
+#include <sys/resource.h>
 #include <signal.h>
 #include <cerrno>
 using namespace bpp; using namespace verif;
@@ -341,6 +342,12 @@ static void worker(const std::vector<Toks>& ops, size_t from, int fd, long cpuMs
 }
 
 int main() {
+  // The formula parser recurses once per nesting level: a 4 KiB formula nests ~4000 deep, which an ordinary
+  // build handles within the default 8 MiB stack (measured: plain build, "-" x 4095, "(" x 2047, "exp(" x 1000)
+  // but the sanitizer build, whose frames are several times larger, does not.  The workers get a 128 MiB stack
+  // so that a stack overflow reported here is the library's and not the instrumentation's.
+  { struct rlimit rl; if (getrlimit(RLIMIT_STACK, &rl) == 0) { rlim_t want = 128ul << 20; if (rl.rlim_max != RLIM_INFINITY && rl.rlim_max < want) want = rl.rlim_max;
+      if (rl.rlim_cur == RLIM_INFINITY || rl.rlim_cur < want) { rl.rlim_cur = want; setrlimit(RLIMIT_STACK, &rl); } } }
   // every message of the library goes to a sink (a null `warning` would be dereferenced by getAttributesMap)
   ApplicationTools::error = nullptr;
   ApplicationTools::message = std::make_shared<NullOutputStream>();
